@@ -262,7 +262,8 @@ def obligations(tier, seed):
     obs = []
     idsets = [["mod-A", "mod_B", "the.vector"], ["m0", "m1", "v"]]
     # identifiers are arbitrary labels: endings a string clean-up could mistake for a file extension or a version
-    odd_ids = [["pJ23100-rbs_b", "lib.gb", "dialog."], ["x.1", "seq.fasta", "b"]]
+    odd_ids = [["pJ23100-rbs_b", "lib.gb", "dialog."], ["x.1", "seq.fasta", "b"],
+               ["pBP-ORF-eGFP-linker-mCherry-NLS-degron-v2", "pTU1-A-lacZ-alpha-fragment-RFP-dropout-v3", "pDVK-AE-kanR-backbone"]]
     for m in (1, 2):
         for sym in range(m + 1):
             for n in ([4, tier_pick(tier, 8, 12)] if tier == "quick" else range(2, 13, 2)):
